@@ -75,8 +75,8 @@ def parseLine (fs : List Bytes) : Option Bed :=
         optInt (f 9), parseIntList (f 10), parseIntList (f 11) with
   | some cs, some ce, some sc, some ts, some te, some rgb, some bc, some bs, some bst =>
     if !validStrand (f 5) then none
-    else if (bs.length : Int) ≠ bc then none
-    else if (bst.length : Int) ≠ bc then none
+    else if n > 10 ∧ (bs.length : Int) ≠ bc then none
+    else if n > 11 ∧ (bst.length : Int) ≠ bc then none
     else some ⟨n, f 0, cs, ce, f 3, sc, f 5, ts, te, rgb, bc, bs, bst⟩
   | _, _, _, _, _, _, _, _, _ => none
 
